@@ -268,6 +268,25 @@ func (g *vfGen) genC15() {
 		}
 		g.emit(vfOp("res", doc, 0))
 	}
+	// labels that look like further parameters, a second charset, a type, or need no quoting at all
+	for _, l := range []string{"utf-8;charset=latin1", "a;b=c", "x;charset=y", "koi8-r;", ";", "a=b", "text/html", "a,b", "x;q=1;charset=z",
+		"utf-8;CHARSET=x", "a;charset", "(x)", "a@b", "x?y", "[1]", "a:b", "<x>", "l1;charset=l2;charset=l3"} {
+		for _, tmpl := range [][2]string{{"<html><meta charset=\"", "\"><body>x"}, {"<html><meta charset='", "'><body>x"},
+			{"<html><meta http-equiv=content-type content='text/html; charset=\"", "\"'>"}, {"<?xml version=\"1.0\" encoding=\"", "\"?><r/>"}} {
+			g.emit(vfOp("res", []byte(tmpl[0]+l+tmpl[1]), 0))
+		}
+	}
+	// Extend called twice with the same type on the same parent, the second time with aliases:
+	// every registered alias must resolve
+	for _, parent := range []string{"r", "0", "3"} {
+		mt := vfHex([]byte("application/x-verif-dup"))
+		a1, a2 := vfHex([]byte("application/x-verif-dup-alias")), vfHex([]byte("application/x-verif-dup-alias2"))
+		sc := fmt.Sprintf("%s:never:%s:%s:~;%s:never:%s:%s:%s+%s", parent, mt, vfHex([]byte(".vd")), parent, mt, vfHex([]byte(".vd")), a1, a2)
+		g.emit(vfOp("xlookup", sc, []byte("application/x-verif-dup")))
+		g.emit(vfOp("xlookup", sc, []byte("application/x-verif-dup-alias")))
+		g.emit(vfOp("xlookup", sc, []byte("application/x-verif-dup-alias2")))
+		g.emit(vfOp("xwalk", sc, []byte("plain text"), 0))
+	}
 	for _, c := range vfCorpus() {
 		if len(c) <= 1<<16 {
 			g.emit(vfOp("res", c, 0))
